@@ -445,6 +445,33 @@ CLAUSES = {
 
 
 # ---------------------------------------------------------------------------------------
+# ---------------------------------------------------------------------------------------
+# cold_first: the very first thing a freshly loaded library is asked is diatonic work in some key
+# ---------------------------------------------------------------------------------------
+COLD_FIRSTS = [["chords", "triads", ["a"]], ["chords", "triads", ["e"]], ["chords", "sevenths", ["f#"]], ["chords", "triads", ["Eb"]],
+               ["chords", "sevenths", ["c"]], ["intervals", "third", ["C", "a"]], ["intervals", "seventh", ["B", "e"]],
+               ["intervals", "fifth", ["F", "d"]], ["chords", "triad", ["E", "c#"]], ["chords", "seventh", ["G", "bb"]],
+               ["chords", "tonic", ["g"]], ["chords", "dominant7", ["ab"]]]
+
+
+def run_cold_first(case):
+    """case = [first call, shorthand, root]: mingus.core.intervals and chords are loaded afresh, `first` is the first
+    call they ever see, then the chord is built; it must be what the formula clause demands."""
+    import importlib
+    from mingus.core import intervals as _iv
+    first, sh, root = case
+    importlib.reload(_iv)
+    importlib.reload(chords)
+    mod = chords if first[0] == "chords" else _iv
+    call(getattr(mod, first[1]), *first[2])
+    engine.S.trans(1)
+    run_formula([sh, root])
+    engine.S.count("cold_first_cases")
+
+
+CLAUSES["cold_first"] = run_cold_first
+
+
 def _roots(ctx):
     if ctx.quick:
         # every order of up to two accidentals (mixed ones like C#b are names too) + triple runs
@@ -469,6 +496,11 @@ def explore(ctx):
 
     if ctx.want("formula"):
         ctx.product("formula", shs, lambda sh: ([sh, r] for r in roots))
+
+    if ctx.want("cold_first"):
+        croots = ctx.pick(["C", "E", "B", "Ab", "F#"], P.canon_names(1))
+        ctx.bound("cold_first", {"first calls": COLD_FIRSTS, "roots": croots, "shorthands": len(shs)})
+        ctx.product("cold_first", COLD_FIRSTS, lambda f: ([f, sh, r] for sh in shs for r in croots))
 
     if ctx.want("alias"):
         aroots = roots if ctx.quick else P.canon_names(2) + ["C#b", "Bb#", "F###", "Abbb"]
